@@ -248,6 +248,37 @@ def rule_d(R, ctx):
          "can_forward deviates from the skip rule: %s; formula = %s" % (cex, fshow(f)[:300]))
 
 
+def rule_rel(R, ctx, rid="C14.h"):
+    Y = ctx.yrs
+    R.rule(rid, "R-GUARD resolution of an element-relative index: StickyIndex::get_item answers the RIGHT neighbour of the anchor element "
+                "exactly where the association is the tested one (After) and the anchor id is the last id of its block, and the block "
+                "that holds the anchor otherwise — every caller (get_offset, quotations: unquote / materialize / to_string) starts "
+                "its walk from this answer")
+    fn = Y.fn("yrs::sticky_index::StickyIndex::get_item")
+    v = FnView(fn)
+    n = 0
+    for i, j, st in fn.stmts():
+        if st["dst"] != 0:
+            continue
+        g = v.guards(i)
+        if not any(l.polarity == "Relative" for l in g):
+            continue
+        t = simp_deep(v.terms.rvalue(st["rv"], 10))
+        n += 1
+        is_right = t[0] == "field" and t[1].endswith("Item.right")
+        by_assoc = any(isinstance(l.term, tuple) and l.term[0] == "call" and re.search(r"PartialEq.*::eq$", F.strip_generics(l.term[1]))
+                       and term_has_field(l.term, "StickyIndex.assoc") and l.polarity is True for l in g)
+        by_last = any(isinstance(l.term, tuple) and l.term[0] == "call" and re.search(r"PartialEq.*::eq$", F.strip_generics(l.term[1]))
+                      and term_has_call(l.term, "re:::last_id$") and term_has_field(l.term, "IndexScope::Relative.0") and l.polarity is True for l in g)
+        if is_right:
+            R.ob(rid, fn, "relative:right", by_assoc and by_last, "item.right is answered under the association test and last_id(item) == id: %s %s" % (by_assoc, by_last))
+        else:
+            whole = t[0] == "agg" and t[1].endswith("Option::Some") or (t[0] == "agg" and "Some" in str(t[1]))
+            R.ob(rid, fn, "relative:item#%d" % n, whole and term_has_call(t, "yrs::block_store::BlockStore::get_item"),
+                 "Some(the block that holds the anchor): %s" % sshow(t, 4))
+    R.floor(rid, "answers of the Relative arm of get_item", n, 2)
+
+
 def check(ctx, R):
     from . import wire_rules
     extra = {}
@@ -258,4 +289,5 @@ def check(ctx, R):
     R.run("C14.d", rule_d, ctx)
     from . import c04 as _c04
     R.run("C14.e", lambda R, c: _c04.rule_e(R, c, "C14.e"), ctx)
+    R.run("C14.h", rule_rel, ctx)
     return extra
